@@ -13,7 +13,9 @@ Record entry := mkE {
   e_kind : Z;          (* 0 regular file, 1 directory (f.is_directory), 2 symbolic link (f.is_symlink) *)
   e_data : str;        (* content; for a link the UTF-8 decoded target text *)
   e_empty : bool;      (* f.emptystream *)
-  e_mtime : bool;      (* "lastwritetime" present: os.utime in the post-pass *)
+  e_mtime : Z;         (* properties["lastwritetime"]: 0 = no such key (skipped), 1 = a time stamp (os.utime),
+                          otherwise None, as the reader leaves it for an undefined entry of the time
+                          vector: ArchiveTimestamp(None) raises TypeError in the post-pass *)
   e_chmod : bool       (* posix_mode present (or read-only attribute): chmod in the post-pass *)
 }.
 
@@ -126,7 +128,7 @@ Fixpoint post_pass (l : list (ppath * entry)) : M unit :=
   match l with
   | [] => ret tt
   | (o, e) :: l' =>
-    let* _ := (if e_mtime e then sys_utime cwd o else ret tt) in
+    let* _ := (if e_mtime e =? 0 then ret tt else if e_mtime e =? 1 then sys_utime cwd o else raise XType) in
     let* _ := (if e_chmod e then sys_chmod cwd o else ret tt) in
     post_pass l'
   end.
@@ -166,7 +168,7 @@ Definition extract_fs (f : fs) (cwd : rpath) (dest : option ppath) (es : list en
 (* ------------------------------------------------------------------ dispatcher (FN 120-159) *)
 Definition of_entry (t : tree) : entry :=
   mkE (of_str (tnth t 0)) (of_TI (tnth t 1)) (of_str (tnth t 2)) (of_bool (tnth t 3))
-      (of_bool (tnth t 4)) (of_bool (tnth t 5)).
+      (of_TI (tnth t 4)) (of_bool (tnth t 5)).
 Definition t_out (o : out unit) : tree :=
   match o with
   | Ret _ s => TL [TL [TI 0]; t_effects (s_eff s); t_fs (s_fs s)]
